@@ -257,6 +257,22 @@ impl Monitor for C11 {
         }
     }
     fn post(&mut self, w: &World, st: &Step, r: &mut Report) {
+        // R5: the cumulative premium fraction of a vAMM moves only in a successful PayFunding on that vAMM
+        let pf_vamm = match &st.op {
+            Op::Engine { msg: eng::ExecuteMsg::PayFunding { vamm }, .. } if st.out.ok => w.vamm_idx(vamm),
+            _ => None,
+        };
+        for (i, (a, b)) in st.pre.vamms.iter().zip(st.post.vamms.iter()).enumerate() {
+            if a.cum_premium != b.cum_premium && pf_vamm != Some(i) {
+                r.violation(
+                    "C11",
+                    "R5-cumulative-fraction-moved-outside-settlement",
+                    format!("R5|{}|{}", st.op.kind(), reply_path(w, &st.out)),
+                    format!("vamm{} cumulative premium fraction {} -> {} in a {} transaction", i, a.cum_premium, b.cum_premium, st.op.kind()),
+                    st.seq,
+                );
+            }
+        }
         let Some((sender, msg, funds)) = engine_msg(&st.op) else { return };
         if !st.out.ok {
             if let eng::ExecuteMsg::PayFunding { vamm } = msg {
